@@ -4,7 +4,8 @@ proof:  Props/C06.lean (resend_full for ALL (BeginSeqNo, EndSeqNo), resend_reply
         invalid_request_no_side_effect, no_session_message_retransmitted, reply_numbers_ascending)
 tie:    journal-shape enumeration through harness/sess_common: every outbound journal over the slot
         alphabet {application, application the filter declines, each of the 6 session types, hole,
-        retransmitted copy left by an earlier resend, left-over gap fill} x every (BeginSeqNo, EndSeqNo)
+        retransmitted copy left by an earlier resend, left-over gap fill, application row carrying an explicit
+        PossDupFlag 43=N / another non-Y value, application row with a stale tag 122 and no 43} x every (BeginSeqNo, EndSeqNo)
         in [-1, len+2]^2 x {ACTIVE, RESENDREQ_AWAITING}: ONE `recv` of the ResendRequest on the REAL
         connection and on the Lean model, effects and complete post-state (journal rows!) compared;
         then a second and third ResendRequest in sequence (pre-state = the implementation's post-state)
@@ -44,8 +45,14 @@ MODELLED_NOT_VERIFIED = [
     "with the real connection + real in-memory SQLite journaler on enumerated journal shapes every run",
 ]
 
-FULL = ["a", "x", "s0", "s1", "s2", "s4", "s5", "sA", "h", "r", "g"]   # 11 slot kinds
-RED = ["a", "x", "s", "h", "r", "g"]                                    # 's' = one session type, rotating
+# 14 slot kinds: application; declined application; the 6 session types; hole; retransmitted copy; left-over
+# gap fill; application row the application sent with an explicit PossDupFlag 43=N ("n"), with another non-Y
+# value ("p": 43=n / 43=0 / empty-looking "NO"), and with a stale OrigSendingTime(122) but no 43 ("o")
+FULL = ["a", "x", "s0", "s1", "s2", "s4", "s5", "sA", "h", "r", "g", "n", "p", "o"]
+# folded alphabet for the long journals: 's' = one session type, rotating through all 6;
+# 'A' = one replayable application row, rotating through a / n / p / o
+RED = ["A", "x", "s", "h", "r", "g"]
+APP_KINDS = ["a", "n", "p", "o"]
 SESS_TYPES = ["0", "1", "2", "4", "5", "A"]
 NOREPLAY = {"0", "1", "2", "4", "5", "A"}          # FIX session-level messages that are never resent
 ENVELOPE = {8, 9, 35, 49, 56, 34, 52, 10, 43, 122}
@@ -59,6 +66,14 @@ def slot_row(letter, n, k=0):
     """journal row for slot kind `letter` at number n (None = hole); rows are made by the REAL encoder"""
     if letter == "s":
         letter = "s" + SESS_TYPES[(n + k) % 6]
+    if letter == "A":
+        letter = APP_KINDS[(n + k) % 4]
+    if letter == "n":   # header field 43 with its default value, in the middle of the message's own tags
+        return S.row("S", "T", "D", ((11, f"o{n}"), (43, "N"), (58, "x")), n, T0)
+    if letter == "p":
+        return S.row("S", "T", "D", ((43, ["n", "0", "NO"][n % 3]), (11, f"o{n}"), (58, "x")), n, T0)
+    if letter == "o":   # stale OrigSendingTime without PossDupFlag
+        return S.row("S", "T", "D", ((11, f"o{n}"), (58, "x"), (122, S.stamp(T0 - 7000))), n, T0)
     if letter == "a":
         return S.row("S", "T", "D", ((11, f"o{n}"), (58, "x")), n, T0)
     if letter == "x":
@@ -441,10 +456,10 @@ def correspondence(ctx):
         fixed = [dict(c, repeat=c.get("repeat", 3)) for c in corpus_cases() + WITNESSES]
         n += run_both(ctx, impl, drv, fixed, stats, dis, impl_fail)
         if ctx.tier == "thorough":
-            rule = ("complete: every journal of length <= 3 over the 11 slot kinds x every (b, e) in [-1, len+2]^2 x {ACTIVE, "
+            rule = ("complete: every journal of length <= 3 over the 14 slot kinds x every (b, e) in [-1, len+2]^2 x {ACTIVE, "
                     "RESENDREQ_AWAITING}; every journal of length 4 and 5 over the 6 slot classes (the session type of an 's' slot "
-                    "rotates through all 6) x every (b, e) x ACTIVE, and x RESENDREQ_AWAITING for length 4 and every 5th journal "
-                    "of length 5; + 10000 sampled cases (length <= 5, all 11 kinds, counters 1 / 7 / 2^32, filter modes, 1-3 "
+                    "rotates through all 6, an application slot through plain / 43=N / 43=other / stale-122) x every (b, e) x ACTIVE, and x RESENDREQ_AWAITING for length 4 and every 5th journal "
+                    "of length 5; + 10000 sampled cases (length <= 5, all 14 kinds, counters 1 / 7 / 2^32, filter modes, 1-3 "
                     "requests in sequence)")
             n += run_both(ctx, impl, drv, enum_cases(FULL, range(0, 4)), stats, dis, impl_fail)
             n += run_both(ctx, impl, drv, enum_cases(RED, [4]), stats, dis, impl_fail)
@@ -452,8 +467,8 @@ def correspondence(ctx):
             n += run_both(ctx, impl, drv, sample_cases(ctx.rng, 10000, 5), stats, dis, impl_fail)
             exhaustive = True
         else:
-            rule = ("complete for journals of length <= 2 over the 11 slot kinds x every (b, e) in [-1, len+2]^2 x {ACTIVE, "
-                    "RESENDREQ_AWAITING}; + 3000 sampled cases (length <= 4, all 11 kinds, counters 1 / 7 / 2^32, filter modes "
+            rule = ("complete for journals of length <= 2 over the 14 slot kinds x every (b, e) in [-1, len+2]^2 x {ACTIVE, "
+                    "RESENDREQ_AWAITING}; + 3000 sampled cases (length <= 4, all 14 kinds, counters 1 / 7 / 2^32, filter modes "
                     "letters / none / all, 1-3 requests in sequence)")
             n += run_both(ctx, impl, drv, enum_cases(FULL, range(0, 3)), stats, dis, impl_fail)
             n += run_both(ctx, impl, drv, sample_cases(ctx.rng, 3000, 4), stats, dis, impl_fail)
